@@ -331,10 +331,19 @@ pub fn degenerate() -> Inputs {
         out.push(("degenerate:tail+nl".into(), format!("{t}\n")));
         out.push(("degenerate:tail+2".into(), format!("{t}\n{t}")));
     }
+    // verbatim text (a comment, a shebang line) that ends the document with each kind of blank, with
+    // and without a final line terminator: the last line is the one a line-oriented pass treats apart
+    for carrier in ["//c", "a //c", "#!shebang", "#a //c", "$x$ //c", "- a //c", "a\n//c", "/*c*/\n//d"] {
+        for blank in [" ", "\t", "  ", " \t", "\t ", "\u{a0}", "\u{3000}", "\u{2003}", " \u{a0}"] {
+            for end in ["", "\n", "\r\n", "\r"] {
+                out.push((format!("degenerate:eof:{}", crate::syntax::esc(&format!("{carrier}{blank}{end}"))), format!("{carrier}{blank}{end}")));
+            }
+        }
+    }
     out
 }
 
-pub const IMPORT_ITEMS: [&str; 10] = ["a", "b", "c", "a as x", "b as a", "c as c", "a.b", "a.b as d", "B", "a as y"];
+pub const IMPORT_ITEMS: [&str; 11] = ["a", "b", "c", "a as x", "b as a", "c as c", "a.b", "a.b as d", "B", "a as y", "a-c"];
 
 fn item_tokens(item: &str) -> Vec<&str> {
     // identifiers, dots and the keyword 'as' of an import item
@@ -507,6 +516,15 @@ pub fn ws_spellings() -> Inputs {
     for (cn, pre, post, _) in &ctxs {
         for (sl, st) in &spellings {
             out.push((format!("ws:{cn}:{sl}"), format!("{pre}{st}{post}")));
+        }
+    }
+    // blank characters that are TEXT in markup (no-break space, ideographic space, em space) at the
+    // end of a line: they belong to the prose, and they are what a trailing-blank pass removes
+    for (cn, pre, post, _) in ctxs.iter().take(6) {
+        for (bn, b) in [("NBSP", "\u{a0}"), ("IDSP", "\u{3000}"), ("EMSP", "\u{2003}"), ("SP.NBSP", " \u{a0}"), ("NBSP.SP", "\u{a0} ")] {
+            for (en, e) in [("LF", "\n"), ("LF.LF", "\n\n"), ("CRLF", "\r\n")] {
+                out.push((format!("ws:{cn}:TEXTBLANK.{bn}.{en}"), format!("{pre}{b}{e}{post}")));
+            }
         }
     }
     out
